@@ -37,6 +37,11 @@ def element_forms():
     return out
 
 
+# valid SMILES in which a bond is written with a ring-closure digit across a dot (C1.C1 is ethane)
+DOT_CLOSURE = ["C1.C1", "C1.N1", "C%12.O%12", "C1.C1.O", "O.C1.C1", "[Na+].C1.[Cl-].O1", "C12.C1.O2", "c1ccccc1C2.N2",
+               "CC(=O)O1.C1C", "[CH2:1]1.[OH:2]1", "C1.C1.C2.N2"]
+
+
 def size_ladder():
     """the same repeat units at sizes around typical shortcut thresholds"""
     units = [("C", "[C@H](C)C", ""), ("O", "[SiH2]O", ""), ("", "N[C@@H](C)C(=O)", "O"), ("", "[NH3+]CC(=O)[O-].", "O"),
@@ -104,7 +109,7 @@ def multiplicity_case(pair):
     return out or "ok"
 
 
-CARBON_SIDES = ["C", "CC", "CC=O", "CC=O.CC=O", "CC.CC", "C.C", "CCO", "O", "CC=O.CC", "c1ccccc1", "C1=CC=CC=C1", "CCl"]
+CARBON_SIDES = ["C", "CC", "CC=O", "CC=O.CC=O", "CC.CC", "C.C", "CCO", "C1.C1", "O", "CC=O.CC", "c1ccccc1", "C1=CC=CC=C1", "CCl", "C1.N1"]
 
 
 def carbon_batch_case(pair):
@@ -228,6 +233,7 @@ def spaces(tier):
         mols += universe.U(["C", "N", "O"], 4)
     mols += MIX_ALPHABET
     mols += size_ladder()
+    mols += DOT_CLOSURE
     seen, out = set(), []
     for s in mols:
         if s not in seen:
